@@ -43,7 +43,7 @@ def job_c12(args):
             return {"cfg": c, "label": S.cfg_label(c), "skipped": "create failed: " + info["error"]}
         if not info.get("engine", "").startswith("cr") or S.bits_of(info) < 15:
             return {"cfg": c, "label": S.cfg_label(c), "skipped": "property does not speak (precision < 15 bits)"}
-        if S.f1_signature(info):
+        if S.f1_exact(info):
             return {"cfg": c, "label": S.cfg_label(c), "skipped": "known finding F1 signature"}
         bits = S.bits_of(info)
         rg = np.random.default_rng(seed)
